@@ -33,6 +33,9 @@ type analyzer struct {
 	fragSeq, curFrag int
 	fragIDs          []int
 	owners           map[string][]int // "Type.field" -> services declaring it (optional)
+	// a client variable called id: declared / used anywhere but in the arguments of root fields
+	idVarDeclared, idVarBelowRoot, inRootArgs bool
+	skipAbstractOnce, nodeRootScope           bool
 }
 
 // Operation computes the feature set of op (with the document's fragments) for the given variables.
@@ -45,7 +48,7 @@ func OperationWithOwners(schema *ast.Schema, op *ast.OperationDefinition, vars m
 	a := &analyzer{schema: schema, vars: vars, set: Set{}, frags: map[string]bool{}, varPos: map[string]string{}, owners: owners}
 	for _, vd := range op.VariableDefinitions {
 		if vd.Variable == "id" {
-			a.set["op.variableNamedId"] = true
+			a.idVarDeclared = true
 		}
 		if vd.DefaultValue != nil {
 			a.set["op.variableDefaultDeclared"] = true
@@ -70,6 +73,13 @@ func OperationWithOwners(schema *ast.Schema, op *ast.OperationDefinition, vars m
 		root = schema.Subscription
 	}
 	a.scope(op.SelectionSet, root, 0, true)
+	if a.idVarDeclared {
+		if a.idVarBelowRoot {
+			a.set["op.variableNamedId"] = true // can reach a child step, where the gateway's own $id lives (KF-C01-12)
+		} else {
+			a.set["op.variableNamedIdRootOnly"] = true
+		}
+	}
 	return a.set
 }
 
@@ -131,6 +141,9 @@ func (a *analyzer) dirs(dl ast.DirectiveList, onFragment bool) {
 		for _, arg := range d.Arguments {
 			if arg.Value != nil && arg.Value.Kind == ast.Variable {
 				a.set["op.directiveVariables"] = true
+				if arg.Value.Raw == "id" {
+					a.idVarBelowRoot = true // directives are not followed to their step: counted as below the root
+				}
 			}
 		}
 	}
@@ -166,6 +179,9 @@ func (a *analyzer) values(v *ast.Value, depth int) {
 	}
 	switch v.Kind {
 	case ast.Variable:
+		if v.Raw == "id" && !a.inRootArgs {
+			a.idVarBelowRoot = true
+		}
 		if depth > 0 {
 			a.set["op.variableInsideInputValue"] = true
 		}
@@ -190,7 +206,12 @@ func (a *analyzer) scope(ss ast.SelectionSet, parent *ast.Definition, depth int,
 	a.flatten(ss, false, "", &ff, 0)
 	fragIDs := a.fragIDs
 	_ = fragIDs
+	// the selection below a root node(id:) field is planned by its own routine (grouped by type fragment and service):
+	// "helper only inside a subtype fragment" and the interface spread classes do not describe it (nodeRoot() sets its own)
+	a.nodeRootScope = a.skipAbstractOnce
+	a.skipAbstractOnce = false
 	a.helperFragments(ss, parent)
+	a.nodeRootScope = false
 	if depth >= 3 {
 		a.set["op.depth>=3"] = true
 	}
@@ -199,6 +220,7 @@ func (a *analyzer) scope(ss ast.SelectionSet, parent *ast.Definition, depth int,
 	for i, x := range ff {
 		f := x.f
 		a.dirs(f.Directives, false)
+		a.inRootArgs = isRoot
 		for _, arg := range f.Arguments {
 			a.set["op.arguments"] = true
 			if arg.Value != nil && arg.Value.Kind == ast.Variable {
@@ -206,6 +228,7 @@ func (a *analyzer) scope(ss ast.SelectionSet, parent *ast.Definition, depth int,
 			}
 			a.values(arg.Value, 0)
 		}
+		a.inRootArgs = false
 		if f.Name != "__typename" {
 			onlyTypename = false
 		}
@@ -258,9 +281,11 @@ func (a *analyzer) scope(ss ast.SelectionSet, parent *ast.Definition, depth int,
 		if len(f.SelectionSet) > 0 && f.Definition != nil {
 			def := a.schema.Types[f.Definition.Type.Name()]
 			if def != nil {
-				if def.Kind == ast.Interface && parent != nil {
+				nodeRootField := isRoot && f.Name == "node" && def.Name == "Node"
+				if def.Kind == ast.Interface && parent != nil && !nodeRootField {
 					a.interfaceSpread(f, def, parent)
 				}
+				a.skipAbstractOnce = nodeRootField
 				if def.Kind == ast.Interface || def.Kind == ast.Union {
 					a.set["op.abstractField"] = true
 				}
@@ -303,6 +328,28 @@ func (a *analyzer) nodeRoot(f *ast.Field) {
 			a.set["op.nodeRootNestedSelection"] = true
 		}
 	}
+	typeConds := 0
+	for cond := range byCond {
+		if cond != "" && cond != "Node" {
+			typeConds++
+		}
+	}
+	// a type fragment without a plain client-selected id gets a helper id; below a node root the helper __typename
+	// is lost (KF-C01-21), so whether that id is scrubbed depends on map iteration order (KF-C01-35)
+	plainID := map[string]bool{}
+	for _, x := range ff {
+		if x.f.Name == "id" && (x.f.Alias == "" || x.f.Alias == "id") && len(x.f.Directives) == 0 {
+			plainID[x.cond] = true
+		}
+	}
+	for cond := range byCond {
+		if cond != "" && cond != "Node" && !plainID[cond] {
+			a.set["op.nodeRootHelperId"] = true
+		}
+	}
+	if typeConds >= 2 {
+		a.set["op.nodeRootSeveralTypeFragments"] = true
+	}
 	for cond, names := range byCond {
 		if cond == "" || cond == "Node" {
 			if len(names) > 0 {
@@ -327,10 +374,22 @@ func (a *analyzer) nodeRoot(f *ast.Field) {
 			a.set["op.nodeRootFragmentOnlyHelpers"] = true
 		}
 	}
-	for _, sel := range f.SelectionSet {
-		if _, ok := sel.(*ast.FragmentSpread); ok {
-			a.set["op.nodeRootNamedFragment"] = true
+	var hasSpread func(ss ast.SelectionSet, depth int) bool
+	hasSpread = func(ss ast.SelectionSet, depth int) bool {
+		for _, sel := range ss {
+			switch x := sel.(type) {
+			case *ast.FragmentSpread:
+				return true
+			case *ast.InlineFragment:
+				if depth < 4 && hasSpread(x.SelectionSet, depth+1) {
+					return true
+				}
+			}
 		}
+		return false
+	}
+	if hasSpread(f.SelectionSet, 0) {
+		a.set["op.nodeRootNamedFragment"] = true // directly below the node field or below its type fragments
 	}
 }
 
@@ -464,7 +523,7 @@ func (a *analyzer) helperFragments(ss ast.SelectionSet, parent *ast.Definition) 
 				a.set["op.helperLostToFragmentScrub"] = true
 			}
 		}
-		if parent != nil && (parent.Kind == ast.Interface || parent.Kind == ast.Union) && !directHelper(ss, h, parent.Name, 0) {
+		if parent != nil && (parent.Kind == ast.Interface || parent.Kind == ast.Union) && !a.nodeRootScope && !directHelper(ss, h, parent.Name, 0) {
 			a.set["op.helperOnlyInsideSubtypeFragment"] = true
 		}
 	}
@@ -491,6 +550,12 @@ func (a *analyzer) interfaceSpread(f *ast.Field, def, parent *ast.Definition) {
 		if len(x.f.SelectionSet) > 0 {
 			complex = true
 			nested = true
+			if x.f.Definition != nil && x.f.Definition.Type != nil {
+				if d := a.schema.Types[x.f.Definition.Type.Name()]; d != nil && d.Kind == ast.Interface {
+					// the inner field's child steps are created once per implementation of the outer field (KF-C01-35)
+					a.set["op.interfaceBelowInterface"] = true
+				}
+			}
 		}
 	}
 	if nested && a.owners == nil {
